@@ -47,7 +47,9 @@ type Op struct {
 }
 
 type Case struct {
-	Auth  string `json:"auth"` // dict | no
+	// Transport the server listens on: unix (default) | tcp | pipe
+	Transport string `json:"transport,omitempty"`
+	Auth      string `json:"auth"` // dict | no
 	Conns int    `json:"conns"`
 	Ops   []Op   `json:"ops"`
 }
@@ -64,6 +66,7 @@ func genCred(t *rapid.T) Cred {
 
 func genCase(t *rapid.T) Case {
 	c := Case{Auth: rapid.SampledFrom([]string{"dict", "dict", "no"}).Draw(t, "auth"), Conns: rapid.IntRange(1, 3).Draw(t, "conns")}
+	c.Transport = rapid.SampledFrom([]string{"unix", "unix", "tcp", "pipe", "pipe"}).Draw(t, "transport")
 	n := rapid.IntRange(2, 18).Draw(t, "n")
 	for i := 0; i < n; i++ {
 		op := Op{Conn: rapid.IntRange(0, c.Conns-1).Draw(t, "conn")}
@@ -228,10 +231,20 @@ func checkCase(c Case) error {
 	if c.Auth != "no" {
 		auth = gate
 	}
-	env, err := netkit.StartServer(auth)
-	if err != nil {
-		return vt.Violationf("C06:setup", "server: %v", err)
+	transport := c.Transport
+	if transport == "" {
+		transport = "unix"
 	}
+	env, err := netkit.StartServerOn(transport, auth)
+	if err != nil {
+		if transport == "tcp" {
+			vt.Note("server on %s: %v", transport, err)
+			vt.Case(false, "unavailable", "transport-unavailable="+transport)
+			return nil
+		}
+		return vt.Violationf("C06:setup", "server on %s: %v", transport, err)
+	}
+	vt.Label("server-transport=" + transport)
 	defer env.Close()
 	svc, _, err := env.AddPong("Svc")
 	if err != nil {
